@@ -36,7 +36,7 @@ func TestMain(m *testing.M) {
 
 // HSpec is a receiving handler.
 type HSpec struct {
-	Kind string `json:"kind"` // all | none | parity | action | once
+	Kind string `json:"kind"` // all | none | parity | action | once | stuck (selects everything, queue of one message, never read)
 	Arg  uint32 `json:"arg"`
 }
 
@@ -75,7 +75,7 @@ func genCase(t *rapid.T) Case {
 	k := rapid.IntRange(1, 5).Draw(t, "handlers")
 	for i := 0; i < k; i++ {
 		c.Handlers = append(c.Handlers, HSpec{
-			Kind: rapid.SampledFrom([]string{"all", "none", "parity", "action", "once"}).Draw(t, "hkind"),
+			Kind: rapid.SampledFrom([]string{"all", "none", "parity", "action", "once", "all", "parity", "action", "stuck"}).Draw(t, "hkind"),
 			Arg:  uint32(rapid.IntRange(0, 6).Draw(t, "harg")),
 		})
 	}
@@ -100,7 +100,7 @@ func (h HSpec) filter() qnet.Filter {
 			return false, true
 		}
 		switch h.Kind {
-		case "all":
+		case "all", "stuck":
 			return true, true
 		case "none":
 			return false, true
@@ -251,6 +251,11 @@ func checkCase(c Case) error {
 		e.MakeHandler(func(hdr *qnet.Header) (bool, bool) { return true, true }, arrival, func(error) { atomic.StoreInt32(&arrivalClosed, 1) })
 		for i, h := range c.Handlers {
 			rxs[i] = &rx{spec: h, queue: make(chan *qnet.Message, total+8)}
+			if h.Kind == "stuck" {
+				// a consumer without room: the property promises it nothing, and
+				// promises the others that it does not matter to them
+				rxs[i].queue = make(chan *qnet.Message, 1)
+			}
 			e.MakeHandler(h.filter(), rxs[i].queue, nil)
 		}
 	}
@@ -352,6 +357,9 @@ collect:
 	// each handler: exactly the subsequence its filter selects, in arrival order
 	for i, r := range rxs {
 		var want []*qnet.Message
+		if r.spec.Kind == "stuck" {
+			continue
+		}
 		f := r.spec.filter()
 		for _, m := range order {
 			matched, keep := f(&m.Header)
